@@ -134,3 +134,5 @@ func (wk *verifWork) verifCommand(cfo *verifCFO, cfg map[string]interface{}) (ma
 	}
 	return cmd.ControlFunc(context.Background(), wk.ncc(), cfo)
 }
+
+func verifCtx() context.Context { return context.Background() }
